@@ -149,13 +149,16 @@ func (p *Proc) Kill() {
 func (p *Proc) Stop() string {
 	if p.Alive() {
 		if p.IsBin {
-			p.Cmd.Process.Signal(syscall.SIGTERM)
+			syscall.Kill(-p.Cmd.Process.Pid, syscall.SIGTERM)
 		} else {
 			p.stdin.Write([]byte("{\"cmd\":\"quit\"}\n"))
 		}
 		select {
 		case <-p.done:
 		case <-time.After(10 * time.Second):
+			if p.IsBin {
+				syscall.Kill(-p.Cmd.Process.Pid, syscall.SIGKILL)
+			}
 			p.Cmd.Process.Kill()
 			<-p.done
 		}
@@ -239,6 +242,7 @@ func SpawnBin(bin string, args []string, o Opt, cwd string, waitListen bool) (*P
 	defer of.Close()
 	cmd := exec.Command(bin, args...)
 	cmd.Dir = cwd
+	cmd.SysProcAttr = &syscall.SysProcAttr{Setpgid: true} // own process group: Stop reaches wrappers' children (strace)
 	cmd.Env = append(cleanEnv(), "TZ=UTC", "LC_ALL=C")
 	p := &Proc{Cmd: cmd, StderrPath: errPath, StdoutPath: outPath, done: make(chan struct{}), IsBin: true}
 	if o.Race {
